@@ -372,6 +372,35 @@ func loadCase(id int, seed int64, out *json.Encoder) {
 			}
 		}
 	}
+	if nf == "bin" {
+		// every count and length field of the top node replaced by one that cannot be right: more than the bytes that are left,
+		// and values beyond the range of a signed 64-bit integer (what a flipped bit or a foreign writer can leave behind)
+		offs := varintOffsets(top)
+		if len(offs) > 24 {
+			rng.Shuffle(len(offs), func(i, j int) { offs[i], offs[j] = offs[j], offs[i] })
+			offs = offs[:24]
+		}
+		for _, off := range offs {
+			_, w := binary.Uvarint(top[off:])
+			for _, v := range []uint64{1 << 63, ^uint64(0), 1<<63 + 12345, uint64(len(top)) + 1, uint64(2*len(top)) + 7} {
+				b := append([]byte{}, top[:off]...)
+				b = binary.AppendUvarint(b, v)
+				b = append(b, top[off+w:]...)
+				name := nodeName(b)
+				st.m[name] = b
+				r2 := *root
+				r2.Link = &name
+				ev := loadEvent{Op: "lroot", ID: id, Pert: fmt.Sprintf("node-length-%d-at-%d-of-%d", v, off, len(top)), NF: nf, Stored: nf, Keys: []int{}, FmtKnown: true,
+					HasLink: true, Present: true, BF: int(r2.BranchFactor), Height: int(r2.Height), Size: int(r2.Size)}
+				cfg := *base
+				ev.Res, ev.Msg = guard(func() error {
+					_, err := r2.LoadMast(ctx, &cfg)
+					return err
+				})
+				out.Encode(ev)
+			}
+		}
+	}
 	for _, n := range cuts {
 		b := append([]byte{}, top[:n]...)
 		name := nodeName(b)
@@ -400,4 +429,28 @@ func loadCase(id int, seed int64, out *json.Encoder) {
 		})
 		out.Encode(ev)
 	}
+}
+
+// varintOffsets returns the offsets of the count and length fields of a node in the binary format (three tables, each a count
+// followed by that many length-prefixed bodies)
+func varintOffsets(b []byte) []int {
+	var offs []int
+	p := 0
+	for t := 0; t < 3; t++ {
+		n, w := binary.Uvarint(b[p:])
+		if w <= 0 {
+			return offs
+		}
+		offs = append(offs, p)
+		p += w
+		for i := uint64(0); i < n; i++ {
+			l, w := binary.Uvarint(b[p:])
+			if w <= 0 || uint64(len(b)-p-w) < l {
+				return offs
+			}
+			offs = append(offs, p)
+			p += w + int(l)
+		}
+	}
+	return offs
 }
